@@ -254,7 +254,11 @@ func (c *tcpConnectionActor) handshake() (err error) {
 	defer func() {
 		if err != nil {
 			_ = c.conn.Close()
+			return
 		}
+		// 握手阶段设置的 10 秒读写截止时间是绝对时间：握手成功后必须清除，
+		// 否则每条连接在建立 10 秒后读/写超时，读端 Actor 被终止，期间写入的消息无声丢失
+		_ = c.conn.SetDeadline(time.Time{})
 	}()
 
 	if c.client {
